@@ -34,7 +34,55 @@ def _short(name: str) -> str:
 
 
 def gen_case(rnd, tier: str, i: Any) -> Dict[str, Any]:
-    return cpdrv.gen_case(rnd, tier, i, max_depth=rnd.choice([3, 4, 5]), ops_per_step=rnd.choice([(2, 5), (3, 8)]))
+    over = {}
+    if rnd.random() < 0.35:
+        # annotations (events without graph nodes) nested in one another around operators, inside operators
+        over.update(annotation_nest=True, p_annotation=0.45, max_depth=rnd.choice([4, 5, 6]))
+    return cpdrv.gen_case(rnd, tier, i, **dict(dict(max_depth=rnd.choice([3, 4, 5]), ops_per_step=rnd.choice([(2, 5), (3, 8)])), **over))
+
+
+def _whatif_breakdown(g, rnd, res, tag) -> None:  # noqa: ANN001
+    """A what-if that replaces one edge of the path by a new edge object of another weight (what CPGraph._add_edge does) and
+    recomputes the path: the breakdown must describe the path that is reported now - one row per critical edge, durations
+    adding up to the path's weight in the graph, summary shares of that total - whether or not the path's nodes changed."""
+    from hta.analyzers.critical_path_analysis import CPEdge
+
+    path = list(g.critical_path_nodes)
+    cands = [(u, v) for u, v in zip(path, path[1:]) if g.edges[u, v]["weight"] >= 2]
+    if not cands or rnd.random() < 0.4:
+        return
+    u, v = rnd.choice(cands)
+    old = g.edges[u, v]["object"]
+    w2 = g.edges[u, v]["weight"] / 2 if isinstance(g.edges[u, v]["weight"], float) else g.edges[u, v]["weight"] // 2
+    g.add_edge(u, v, weight=w2, object=CPEdge(begin=u, end=v, weight=w2, type=old.type))
+    ok, r = drv.guard(res, "critical_path (after replacing an edge)", g.critical_path)
+    if not ok or r is not True:
+        return
+    ok, bd = drv.guard(res, "get_critical_path_breakdown (after what-if)", g.get_critical_path_breakdown)
+    if not ok:
+        return
+    res.counters["breakdowns_after_edge_replacement"] += 1
+    if list(g.critical_path_nodes) == path:
+        res.counters["breakdowns_after_edge_replacement_same_path_nodes"] += 1
+    p2 = list(g.critical_path_nodes)
+    pw = sum(g.edges[a, b]["weight"] for a, b in zip(p2, p2[1:]))
+    if bd is None or len(bd) != len(p2) - 1:
+        res.bad("one-row-per-critical-edge", f"{tag} after replacing edge ({u},{v}): breakdown has {None if bd is None else len(bd)} rows, the path has {len(p2) - 1} edges")
+        return
+    if abs(float(bd["duration"].sum()) - pw) > 1e-9:
+        res.bad("duration-conserved", f"{tag} after replacing edge ({u},{v}) (weight {old.weight} -> {w2}): breakdown durations add up to {bd['duration'].sum()}, "
+                f"the critical path weighs {pw} in the graph")
+        return
+    ok, sm = drv.guard(res, "summary (after what-if)", g.summary)
+    if ok and pw > 0:
+        per = collections.Counter()
+        for dur, cls in zip(bd["duration"].tolist(), bd["bound_by"].tolist()):
+            per[cls] += dur
+        got = {k: float(x) for k, x in sm.to_dict().items()}
+        for cls, w in per.items():
+            if abs(got.get(cls, 0.0) - 100.0 * w / pw) > 1e-6:
+                res.bad("summary-share", f"{tag} after replacing edge ({u},{v}): summary[{cls!r}]={got.get(cls)} but the class holds {w} of {pw}")
+                break
 
 
 def run_case(case: Dict[str, Any], ctx: Any) -> core.CaseResult:
@@ -139,6 +187,7 @@ def run_case(case: Dict[str, Any], ctx: Any) -> core.CaseResult:
             res.counters["zero_weight_paths"] += 1
         if len(cases_seen) >= 3 or len(classes_seen) >= 3:
             nontrivial = True
+        _whatif_breakdown(g, core.rng("c10whatif", case["win_seed"], A.annotation, str(A.instance)), res, tag)
         if res.sample is None:
             res.sample = {"window": [A.annotation, str(A.instance)], "critical_edges": len(edges), "path_weight": total,
                           "attribution_cases": sorted(cases_seen), "classes": sorted(classes_seen),
